@@ -474,6 +474,58 @@ type sNested struct {
 	E cbor.Tag[EInner]
 }
 
+// anonymous embedding to depth 5, fields before and after the embedded struct at every level, several fields in
+// the innermost one: the array is the fields flattened in declaration order, whatever the depth
+type D5 struct {
+	P uint8
+	Q string
+	R bool
+}
+type D4 struct {
+	A4 int
+	D5
+	Z4 string
+}
+type D3 struct {
+	A3 int
+	D4
+	Z3 string
+}
+type D2 struct {
+	D3
+	Z2 int
+}
+type D1 struct {
+	A1 string
+	D2
+}
+type sDeep5 struct {
+	D1
+	Last bool
+}
+type sDeep4 struct {
+	D2
+	Last bool
+}
+type sDeep3 struct {
+	First int
+	D3
+}
+type sDeep2 struct {
+	D4
+	Last bool
+}
+type P3 struct {
+	A3 int
+	*D4
+	Z3 string
+}
+type sDeepPtr struct {
+	First int
+	P3
+	Last bool
+}
+
 func ip(i int) *int { return &i }
 
 func shapes() {
@@ -500,6 +552,25 @@ func shapes() {
 		for _, z := range []bool{false, true} {
 			roundTrip("struct-embedded", sEmbed{EInner{x, "y"}, z}, rc.A(rc.U(uint64(x)), rc.T("y"), rc.Bool(z)))
 			roundTrip("struct-embedded-ptr", sEmbedPtr{&EInner{x, "y"}, z}, rc.A(rc.U(uint64(x)), rc.T("y"), rc.Bool(z)))
+		}
+	}
+	for _, x := range []uint8{0, 24} {
+		for _, q := range []string{"", "IETF"} {
+			d5 := D5{x, q, true}
+			in5 := []*rc.Item{rc.U(uint64(x)), rc.T(q), rc.Bool(true)}
+			d4 := D4{-4, d5, "z4"}
+			in4 := append(append([]*rc.Item{rc.Int(-4)}, in5...), rc.T("z4"))
+			d3 := D3{3, d4, "z3"}
+			in3 := append(append([]*rc.Item{rc.U(3)}, in4...), rc.T("z3"))
+			d2 := D2{d3, 2}
+			in2 := append(append([]*rc.Item{}, in3...), rc.U(2))
+			d1 := D1{"a1", d2}
+			in1 := append([]*rc.Item{rc.T("a1")}, in2...)
+			roundTrip("struct-embedded-depth2", sDeep2{d4, true}, rc.A(append(append([]*rc.Item{}, in4...), rc.Bool(true))...))
+			roundTrip("struct-embedded-depth3", sDeep3{9, d3}, rc.A(append([]*rc.Item{rc.U(9)}, in3...)...))
+			roundTrip("struct-embedded-depth4", sDeep4{d2, false}, rc.A(append(append([]*rc.Item{}, in2...), rc.Bool(false))...))
+			roundTrip("struct-embedded-depth5", sDeep5{d1, true}, rc.A(append(append([]*rc.Item{}, in1...), rc.Bool(true))...))
+			roundTrip("struct-embedded-depth3-ptr", sDeepPtr{1, P3{3, &d4, "z3"}, true}, rc.A(append(append([]*rc.Item{rc.U(1)}, in3...), rc.Bool(true))...))
 		}
 	}
 	five := 5
@@ -697,7 +768,7 @@ func main() {
 	if !r.Quick() {
 		depth = 3
 	}
-	r.Rule(fmt.Sprintf("exhaustive over: all int8/uint8/int16/uint16 values and every head-size boundary +-1 of the 64-bit range for each Go integer kind; byte/text/array lengths {0,1,23,24,255,256,65535,65536,99999}; the closure of boundary leaves under arrays, tags {0,18,2^64-1} and maps (all key subsets of size<=2, size 3 over 8 keys, int and text keys of different encoded lengths) to depth %d decoded into `any`; a catalogue of struct shapes (weights, '-', omitempty, embedded, *embedded, pointers, fixed arrays, maps, flat2, nested Bstr/Tag); every convention type; protocol/COSE types for all 14 key-type/encoding pairs; every plaintext message of honest DI/TO0/TO1/TO2 runs; canonical COSE_Sign1/Mac0/Encrypt0 objects and header maps carrying a parameter of each of 16 value classes (incl. null, empty and nested values, tags) under 5 labels in the protected or the unprotected map, which must re-encode byte for byte. Oracle per value: Marshal twice identical, equals refcbor canonical encoding of the independently written model, passes refcbor canonicality, Unmarshal gives an equal value (nil==empty), re-Marshal reproduces the bytes. distinct = distinct (class, encoding) pairs.", depth))
+	r.Rule(fmt.Sprintf("exhaustive over: all int8/uint8/int16/uint16 values and every head-size boundary +-1 of the 64-bit range for each Go integer kind; byte/text/array lengths {0,1,23,24,255,256,65535,65536,99999}; the closure of boundary leaves under arrays, tags {0,18,2^64-1} and maps (all key subsets of size<=2, size 3 over 8 keys, int and text keys of different encoded lengths) to depth %d decoded into `any`; a catalogue of struct shapes (weights, '-', omitempty, embedded, *embedded, anonymous embedding to depth 5 with fields before and after every level, pointers, fixed arrays, maps, flat2, nested Bstr/Tag); every convention type; protocol/COSE types for all 14 key-type/encoding pairs; every plaintext message of honest DI/TO0/TO1/TO2 runs; canonical COSE_Sign1/Mac0/Encrypt0 objects and header maps carrying a parameter of each of 16 value classes (incl. null, empty and nested values, tags) under 5 labels in the protected or the unprotected map, which must re-encode byte for byte. Oracle per value: Marshal twice identical, equals refcbor canonical encoding of the independently written model, passes refcbor canonicality, Unmarshal gives an equal value (nil==empty), re-Marshal reproduces the bytes. distinct = distinct (class, encoding) pairs.", depth))
 	var wg sync.WaitGroup
 	for _, f := range []func(){ints, shapes, conventions, libraryTypes, coseBytes} {
 		wg.Add(1)
